@@ -398,7 +398,8 @@ class ClientHello(HelloMessage):
             # depends on a default value of this property
             return [CertificateType.x509]
         else:
-            return cert_type.certTypes
+            # an extension without payload lists no types
+            return cert_type.certTypes or []
 
     @certificate_types.setter
     def certificate_types(self, val):
